@@ -200,11 +200,11 @@ def run(ck):
     # cyclic pointer declaration: TFlag must terminate
     rc, log = ck.go_test_overlay("ssa/abi", {"zz_verif_test.go": os.path.join(H, "abi_verif_test.go")}, run="TestVerifCyclic$",
                                  timeout=120)
-    if "VERIF-CYCLIC-START" in log and "VERIF-CYCLIC-DONE" not in log:
+    if rc != 0 and ("VERIF-CYCLIC-START" in log or "stack overflow" in log or "stack exceeds" in log):
         ck.violation("tflag-cyclic-pointer-declaration-does-not-terminate",
                      "Builder.TFlag does not terminate on `type N *N` (legal Go): " + ("stack overflow" if "stack" in log else "crash"),
                      {"source": "package p; type N *N; var v N", "log": log[-400:]})
-    elif "VERIF-CYCLIC-START" not in log:
+    elif rc != 0:
         ck.correspondence_broken("harness:ssa/abi-cyclic", log[-800:])
     ck.phase("s1")
 
